@@ -1696,6 +1696,8 @@ class HDKey(Key):
         bkey = change_base(wif, 58, 256)
         if len(bkey) != 82:
             raise BKeyError("Invalid BIP32 HDkey WIF. Length must be 82 characters")
+        if double_sha256(bkey[:-4])[:4] != bkey[-4:]:
+            raise BKeyError("Invalid BIP32 HDkey WIF. Checksum incorrect")
 
         if ord(bkey[45:46]):
             is_private = False
@@ -1712,6 +1714,10 @@ class HDKey(Key):
         prefix_data = wif_prefix_search(key_hex[:8], network=network, multisig=multisig)
         if not prefix_data:
             raise BKeyError("Invalid BIP32 HDkey WIF. Cannot find prefix in network definitions")
+
+        if is_private not in [n['is_private'] for n in prefix_data]:
+            raise BKeyError("Invalid BIP32 HDkey WIF. Version prefix does not correspond with %s key data" %
+                            ('private' if is_private else 'public'))
 
         networks = list(dict.fromkeys([n['network'] for n in prefix_data]))
         if not network and networks:
@@ -1809,12 +1815,19 @@ class HDKey(Key):
                 network = Network(check_network_and_key(import_key, network, kf["networks"]))
                 if kf['format'] in ['hdkey_private', 'hdkey_public']:
                     bkey = change_base(import_key, 58, 256)
+                    if len(bkey) != 82:
+                        raise BKeyError("Invalid BIP32 HDkey WIF. Length must be 82 characters")
+                    if double_sha256(bkey[:-4])[:4] != bkey[-4:]:
+                        raise BKeyError("Invalid BIP32 HDkey WIF. Checksum incorrect")
                     # Derive key, chain, depth, child_index and fingerprint part from extended key WIF
                     if ord(bkey[45:46]):
                         is_private = False
                         key = bkey[45:78]
                     else:
                         key = bkey[46:78]
+                    if is_private != kf['is_private']:
+                        raise BKeyError("Invalid BIP32 HDkey WIF. Version prefix does not correspond with %s key data" %
+                                        ('private' if is_private else 'public'))
                     depth = ord(bkey[4:5])
                     parent_fingerprint = bkey[5:9]
                     child_index = int.from_bytes(bkey[9:13], 'big')
